@@ -296,24 +296,32 @@ Proof.
 Qed.
 
 (* ------------------------------------------------------------------ literals *)
-Lemma binop_case_lit_plain f sub o m1 e1 m2 e2 :
-  (forall s m e, f s (Plain m e) = to_scale s m e) ->
-  binop_case_lit f sub o (Plain m1 e1) (Plain m2 e2) = binop_case sub o m1 e1 m2 e2.
+Lemma binop_case_lit_plain ld sub o m1 e1 m2 e2 :
+  (forall w s m e, ld w s (Plain m e) = load w s m e) ->
+  binop_case_lit ld sub o (Plain m1 e1) (Plain m2 e2) = binop_case sub o m1 e1 m2 e2.
 Proof.
-  intros H. unfold binop_case_lit, binop_case, binop_vals, load_lit, load. destruct o; try reflexivity.
+  intros H. unfold binop_case_lit, binop_case, binop_vals. destruct o; try reflexivity.
   rewrite !H. reflexivity.
 Qed.
 
-Lemma lit_impl_eq_spec_when_digits_remain s M x :
-  0 <= s -> - (x + s) <= ndigits M -> to_scale_lit_impl s (Sci M x) = to_scale_lit_spec s (Sci M x).
+Lemma sci_impl_eq_spec_when_digits_remain s M y :
+  0 <= s -> - (y + s) <= ndigits M -> to_scale_sci_impl s M y = to_scale_pow s M y.
 Proof.
-  intros Hs Hk. unfold to_scale_lit_impl, to_scale_lit_spec, to_scale.
-  destruct (- (x + s) <=? 0) eqn:K0.
-  - apply Z.leb_le in K0. destruct (x <=? 0) eqn:X0.
-    + apply Z.leb_le in X0. rewrite (proj2 (Z.leb_le (- x) s)) by lia. f_equal. f_equal. lia.
+  intros Hs Hk. unfold to_scale_sci_impl, to_scale_pow, to_scale.
+  destruct (- (y + s) <=? 0) eqn:K0.
+  - apply Z.leb_le in K0. destruct (y <=? 0) eqn:X0.
+    + apply Z.leb_le in X0. rewrite (proj2 (Z.leb_le (- y) s)) by lia. f_equal. f_equal. lia.
     + apply Z.leb_gt in X0. rewrite (proj2 (Z.leb_le 0 s)) by lia.
       rewrite <- Z.mul_assoc, <- Z.pow_add_r by lia. f_equal. f_equal. lia.
   - apply Z.leb_gt in K0. rewrite (proj2 (Z.leb_le _ _) Hk).
-    assert (x <= 0) by lia. rewrite (proj2 (Z.leb_le x 0)) by lia.
-    rewrite (proj2 (Z.leb_gt (- x) s)) by lia. f_equal. f_equal. lia.
+    assert (y <= 0) by lia. rewrite (proj2 (Z.leb_le y 0)) by lia.
+    rewrite (proj2 (Z.leb_gt (- y) s)) by lia. f_equal. f_equal. lia.
+Qed.
+
+Lemma load_lit_impl_eq_spec w s M d x :
+  0 <= s -> - (x - d + s) <= ndigits M -> ndigits M - d <= w - s ->
+  load_lit_impl w s (Sci M d x) = load_lit_spec w s (Sci M d x).
+Proof.
+  intros Hs Hk Hm. unfold load_lit_impl, load_lit_spec.
+  rewrite (proj2 (Z.ltb_ge _ _) Hm). rewrite sci_impl_eq_spec_when_digits_remain by assumption. reflexivity.
 Qed.
